@@ -30,6 +30,11 @@ type CheckConfig struct {
 	Residual    []string          `json:"residual,omitempty"`
 	Bounded     []BoundedCheck    `json:"bounded,omitempty"`
 	Extra       map[string]string `json:"extra,omitempty"`
+	// AlsoTags: contract blocks (of the packages this check loads) that are tagged with one of these properties are
+	// verified by this check as well - the mechanisms behind neighbouring properties overlap (a pooled request object
+	// serves C07 and C15, the response path C01 and C13). Clauses restricted to another property (`ensures @Cxx`)
+	// and family contracts stay with their own property.
+	AlsoTags []string `json:"also_tags,omitempty"`
 }
 
 type BoundedCheck struct {
@@ -389,7 +394,7 @@ func runCheck(id, tier string, dev bool, filter string) int {
 	}
 	for _, key := range s.cs.Order {
 		con := s.cs.ByKey[key]
-		if con.Trusted || !con.hasProp(id) {
+		if con.Trusted || !(con.hasProp(id) || con.hasAnyProp(cfg.AlsoTags)) {
 			continue
 		}
 		if re != nil && !re.MatchString(key) {
